@@ -5,7 +5,7 @@ CONSTANTS
   MaxSteps = 4
   ReleaseOnFailedCtor = TRUE
   RollbackKeepsLock = FALSE
-  AllowFailedRollback = FALSE
+  FailedRollbackKeepsLock = TRUE
   AtomicAcquire = TRUE
 CONSTRAINT Bounded
 INVARIANT AtMostOneWriter
